@@ -325,7 +325,11 @@ ExpCentral(f, at) ==
     crc |-> f.crc, csize32 |-> Clamp32(f.csize), usize32 |-> Clamp32(f.usize), off32 |-> Clamp32(f.hdr),
     usize |-> f.usize, csize |-> f.csize, off |-> f.hdr, nlen |-> f.name.len, name |-> f.name,
     xlen |-> CentralZ64Len(f.usize, f.csize, f.hdr) + XBytes(f.cx), klen |-> 0, xjunk |-> 0,
-    zcount |-> IF CentralZ64Len(f.usize, f.csize, f.hdr) > 0 THEN 1 ELSE 0, z64_exact |-> TRUE,
+    zcount |-> IF CentralZ64Len(f.usize, f.csize, f.hdr) > 0 THEN 1 ELSE 0, zvals |-> CentralZ64Fields(f.usize, f.csize, f.hdr),
+    \* what a reader recovers from the emitted fields must be the entry's values (not true by fiat: D17)
+    z64_exact |-> LET vals == CentralZ64Fields(f.usize, f.csize, f.hdr)
+                      p == ParseZ64(Clamp32(f.usize), Clamp32(f.csize), Clamp32(f.hdr), vals # <<>>, vals)
+                  IN p.exact /\ p.us = f.usize /\ p.cs = f.csize /\ p.off = f.hdr,
     eattr_hi |-> f.mode, eattr_lo |-> f.elo, vmade |-> f.sys * 256 + 46, extra |-> f.cx]
 ExpLocal(f) ==
    [ok |-> TRUE, pos |-> f.hdr, flags |-> FlagsOf(f), method |-> f.method, time |-> f.dt[2], date |-> f.dt[1],
